@@ -40,13 +40,29 @@ func NewTimeSeries(fromTime, untilTime Timestamp, step Duration, values []Value)
 }
 
 // FromTime returns the start time of ts.
-func (ts *TimeSeries) FromTime() Timestamp { return ts.fromTime }
+// A nil ts is an absent series (no data for the requested range).
+func (ts *TimeSeries) FromTime() Timestamp {
+	if ts == nil {
+		return 0
+	}
+	return ts.fromTime
+}
 
 // UntilTime returns the end time of ts.
-func (ts *TimeSeries) UntilTime() Timestamp { return ts.untilTime }
+func (ts *TimeSeries) UntilTime() Timestamp {
+	if ts == nil {
+		return 0
+	}
+	return ts.untilTime
+}
 
 // Step returns the duration between points in ts.
-func (ts *TimeSeries) Step() Duration { return ts.step }
+func (ts *TimeSeries) Step() Duration {
+	if ts == nil {
+		return 0
+	}
+	return ts.step
+}
 
 // Points converts ts to points.
 func (ts *TimeSeries) Points() Points {
@@ -131,7 +147,12 @@ func (ts *TimeSeries) DiffPointsExcludeSrcNaN(ts2 *TimeSeries) (Points, Points) 
 }
 
 // Values returns the values in ts.
-func (ts *TimeSeries) Values() []Value { return ts.values }
+func (ts *TimeSeries) Values() []Value {
+	if ts == nil {
+		return nil
+	}
+	return ts.values
+}
 
 // String returns the string representation of ts.
 func (ts *TimeSeries) String() string {
@@ -147,6 +168,10 @@ func (ts *TimeSeries) String() string {
 //
 // AppendTo method implements the AppenderTo interface.
 func (ts *TimeSeries) AppendTo(dst []byte) []byte {
+	if ts == nil {
+		// An absent series is encoded as an empty range with step zero.
+		ts = &TimeSeries{}
+	}
 	dst = ts.fromTime.AppendTo(dst)
 	dst = ts.untilTime.AppendTo(dst)
 	dst = ts.step.AppendTo(dst)
@@ -180,6 +205,11 @@ func (ts *TimeSeries) TakeFrom(src []byte) ([]byte, error) {
 		return nil, err
 	}
 
+	if ts.step == 0 && ts.fromTime == ts.untilTime {
+		// An absent series (see AppendTo).
+		ts.values = nil
+		return src, nil
+	}
 	if ts.step <= 0 {
 		return nil, errors.New("step must be positive")
 	}
